@@ -112,9 +112,10 @@ func seqSync[T comparable](c *ev.Case, tname string, mk func(i int) T) bool {
 	if !c.Guard("NewSync["+tname+"]", func() { r = ringz.NewSync[T](req) }) {
 		return false
 	}
-	cp := 2
-	for cp < req {
-		cp *= 2
+	cp := r.Cap() // how Cap() relates to the request is C10's clause, decided there
+	if cp < 1 {
+		c.Failf("typed-cap", "NewSync[%s](%d).Cap() = %d", tname, req, cp)
+		return false
 	}
 	var m []T
 	next := 0
